@@ -31,10 +31,11 @@ func setupGenerator(converter *config.Converter, n *namer.Namer) (*generator, er
 	}
 
 	gen := generator{
-		namer:  n,
-		conf:   converter,
-		lookup: lookup,
-		extend: extend,
+		namer:   n,
+		conf:    converter,
+		lookup:  lookup,
+		extend:  extend,
+		callers: map[*method.Definition]map[method.IndexID]struct{}{},
 	}
 
 	return &gen, nil
